@@ -25,7 +25,7 @@ def parse_trace(path):
     archs = []
     seqs = []
     cur = None
-    with open(path) as f:
+    with open(path, errors="replace") as f:
         for no, line in enumerate(f, 1):
             line = line.rstrip("\n")
             if line.startswith("cfg "):
@@ -93,6 +93,7 @@ class WorldTrack:
         self.unknown_destroy = False
         self.var_live = {}    # create-variable -> words   (identity of the entity, not of its bits)
         self.var_dead = {}
+        self.removals = defaultdict(int)   # archetype -> number of removals so far (C09)
 
     def by_token(self, toks):
         for words, (a, row) in self.live.items():
@@ -105,6 +106,7 @@ class WorldTrack:
         del self.live[words]
         self.dead.add(words)
         self.destroyed[a].append(words)
+        self.removals[a] += 1
         for v, wd in list(self.var_live.items()):
             if wd == words:
                 del self.var_live[v]
@@ -116,6 +118,7 @@ class WorldTrack:
         w.unknown_destroy = self.unknown_destroy
         w.var_live = dict(self.var_live)
         w.var_dead = dict(self.var_dead)
+        w.removals = defaultdict(int, self.removals)
         w.issued = list(self.issued)
         w.dead = set(self.dead)
         w.caps = self.caps
@@ -156,6 +159,7 @@ def check_seq(seq, stats):
     worlds = [WorldTrack(narch)]
     cur = 0
     hvars = {}    # var -> (kind 'e'/'d', words, static arch, forged_typed_mismatch)
+    direct_issued = {}   # direct-handle var -> issue record (C09)
     wrapped = False   # a generation may have wrapped (only under wrapping_version + preset)
     prev_summary = None
     preset_used = False
@@ -290,6 +294,14 @@ def check_seq(seq, stats):
         elif kind == "todirect":
             if obs.startswith("d "):
                 hvars[op[4]] = ("d", obs.split()[1], None, False)
+                src = hvars.get(op[3])
+                dw = obs.split()[1]
+                da = id2arch.get(int(dw.split(".")[0]) & 0xff)
+                # C09: remember for which entity (by its component tokens) and at which removal count of
+                # its archetype the handle was issued -- only when the source is an entity variable whose
+                # entity is alive here (a direct source or a forged source carries no identity)
+                if src and src[0] == "e" and not src[3] and op[3] in w.var_live and da is not None and w.var_live[op[3]] in w.live:
+                    direct_issued[op[4]] = {"world": cur, "arch": da, "toks": list(w.live[w.var_live[op[3]]][1]), "removals": w.removals[da], "words": dw}
         elif kind == "forge":
             if obs.startswith("ok"):
                 if op[2] == "any":
@@ -327,6 +339,27 @@ def check_seq(seq, stats):
             hv = hvars.get(op[1])
             f = fields(obs)
             stats["probes"] += 1
+            di = direct_issued.get(op[1])
+            if di is not None and w is not None and not w.unknown_destroy and not (wrapping and preset_used):
+                # checked in the world the handle was issued in (clones are covered by C13's stream)
+                if di["world"] == cur:
+                    removed_since = w.removals[di["arch"]] > di["removals"]
+                    acc_fields = [n for n in ACCEPT_FIELDS_T + ACCEPT_FIELDS_Y if n in f and accepted(n, f[n])]
+                    rej_fields = [n for n in ACCEPT_FIELDS_T + ACCEPT_FIELDS_Y if n in f and not f[n].startswith("!") and not accepted(n, f[n])]
+                    if removed_since and acc_fields:
+                        hits.append(hit("C09", seq, no, raw, f"direct handle {di['words']} is still accepted ({acc_fields[0]}={f[acc_fields[0]][:50]}) after a removal from its archetype", "direct-survives-removal"))
+                    if not removed_since and rej_fields:
+                        hits.append(hit("C09", seq, no, raw, f"direct handle {di['words']} is rejected by {rej_fields[0]} although its archetype saw no removal since it was issued", "direct-dies-early"))
+                    if not removed_since:
+                        zst = [len(c) > 2 and c[2] == "z" for c in archs[di["arch"]]["comps"]]
+                        exp = ["0" if z else e for e, z in zip(di["toks"], zst)]
+                        for n in acc_fields:
+                            v = f[n]
+                            if n[-1] in ("v", "b") and ":" in v:
+                                toks = [x.split(".")[0] for x in v.split(":", 1)[1].split(",")]
+                                if toks != exp:
+                                    hits.append(hit("C09", seq, no, raw, f"direct handle {di['words']} designates components {toks[:4]}, it was issued for the entity owning {exp[:4]}", "direct-wrong-entity"))
+                                break
             if hv and hv[0] == "e" and w is not None and not w.unknown_destroy:
                 words, static, mismatch = hv[1], hv[2], hv[3]
                 key_id = int(words.split(".")[0]) & 0xff
@@ -404,6 +437,13 @@ def check_seq(seq, stats):
                 hits.extend(check_iterd(seq, no, op, obs, raw, w, archs, ids))
         elif kind in ("iter", "iterb"):
             stats["iters"] += 1
+        elif kind == "end":
+            # C04: after every world has been dropped nothing may be left alive, unless a Clone/Drop
+            # fault was injected in this sequence (leak-on-panic is not among the guarantees)
+            faulty = any(any(t.startswith("fault=") for t in o[1]) for o in seq.lines)
+            m = re.match(r"live=(\d+) zlive=(-?\d+)", obs)
+            if m and not faulty and (m.group(1) != "0" or m.group(2) != "0"):
+                hits.append(hit("C04", seq, no, raw, f"after dropping every world {m.group(1)} component values and {m.group(2)} zero-sized values were never dropped", "leak"))
         elif kind == "preset":
             if obs.startswith("ok"):
                 preset_used = True
